@@ -14,7 +14,7 @@ import (
 )
 
 // TODO: Make this more robust.
-func formatValue(ctx context.Context, format string, value rel.Value) string {
+func formatValue(ctx context.Context, format string, value rel.Value) (string, error) {
 	var v interface{}
 	switch value := value.(type) {
 	case nil:
@@ -32,15 +32,23 @@ func formatValue(ctx context.Context, format string, value rel.Value) string {
 	case 't':
 		v = value.IsTrue()
 	case 'c', 'd', 'o', 'O', 'x', 'X', 'U':
-		v = int(value.Export(ctx).(float64))
+		n, is := value.(rel.Number)
+		if !is {
+			return "", fmt.Errorf("//str.expand: %s needs a number, not %s", format, rel.ValueTypeAsString(value))
+		}
+		v = int(n.Float64())
 	case 'f', 'F', 'g', 'G':
-		v = value.Export(ctx).(float64)
+		n, is := value.(rel.Number)
+		if !is {
+			return "", fmt.Errorf("//str.expand: %s needs a number, not %s", format, rel.ValueTypeAsString(value))
+		}
+		v = n.Float64()
 	case 'q':
 		if f, ok := v.(float64); ok {
 			v = int(f)
 		}
 	}
-	return fmt.Sprintf(format, v)
+	return fmt.Sprintf(format, v), nil
 }
 
 var (
@@ -68,7 +76,11 @@ var (
 						sb.WriteString(delim[1:])
 					}
 					if value != nil {
-						sb.WriteString(formatValue(ctx, format, value))
+						formatted, err := formatValue(ctx, format, value)
+						if err != nil {
+							return nil, err
+						}
+						sb.WriteString(formatted)
 					}
 				}
 				s = sb.String()
@@ -76,7 +88,11 @@ var (
 				return nil, fmt.Errorf("//str..expand: arg not an array in ${arg::}: %v", args[1])
 			}
 		} else {
-			s = formatValue(ctx, format, args[1])
+			var err error
+			s, err = formatValue(ctx, format, args[1])
+			if err != nil {
+				return nil, err
+			}
 		}
 		if s != "" {
 			tail, is := tools.ValueAsString(args[3])
